@@ -63,6 +63,18 @@ struct Secret {
     pat: Vec<u8>,
 }
 
+/// a secret integer rendered as text (an error message, a debug string): decimal and hexadecimal digits
+fn text_patterns(name: &str, v: u64) -> Vec<Secret> {
+    if v >> 40 == 0 {
+        return vec![];
+    }
+    vec![
+        Secret { name: format!("{} as decimal text", name), pat: format!("{}", v).into_bytes() },
+        Secret { name: format!("{} as hexadecimal text", name), pat: format!("{:x}", v).into_bytes() },
+        Secret { name: format!("{} as hexadecimal text", name), pat: format!("{:X}", v).into_bytes() },
+    ]
+}
+
 fn find(block: &[u8], pat: &[u8]) -> bool {
     if pat.is_empty() || block.len() < pat.len() {
         return false;
@@ -161,6 +173,11 @@ pub fn oracle(_ctx: &RunCtx, spec: &WipeSpec, log: &mut CaseLog) -> Result<(), S
     }
     if bits == 64 {
         for (j, v) in t.values.iter().enumerate() {
+            secrets.extend(text_patterns(&format!("witness value [{}]", j), *v));
+        }
+    }
+    if bits == 64 {
+        for (j, v) in t.values.iter().enumerate() {
             let off = v - t.promises[j].unwrap_or(0);
             if off != *v && off >> 40 != 0 {
                 secrets.push(Secret {
@@ -222,6 +239,38 @@ pub fn oracle(_ctx: &RunCtx, spec: &WipeSpec, log: &mut CaseLog) -> Result<(), S
         scan("prove refused because the last member's promise exceeds its value", c, &secrets, &mut stats)?;
         drop(st_bad);
     }
+    // ---- a prove call refused because a value does not fit in the bit length (committed consistently, so the refusal is the range one)
+    if bits < 64 {
+        let big = spec.bulk.rotate_left(29) | (1u64 << 62);
+        let j = (spec.bulk as usize) % cfg.m;
+        let mut vals = t.values.clone();
+        vals[j] = big;
+        let cs: Vec<RistrettoPoint> = vals
+            .iter()
+            .zip(t.blindings.iter())
+            .map(|(v, r)| t.params.pc_gens().commit(&Scalar::from(*v), r).map_err(|e| format!("{:?}", e)))
+            .collect::<Result<_, _>>()?;
+        let st_big = RangeStatement::init(t.params.clone(), cs, t.promises.clone(), t.seed).map_err(|e| format!("{:?}", e))?;
+        let w_big = RangeWitness::init(vals.iter().zip(t.blindings.iter()).map(|(v, r)| CommitmentOpening::new(*v, r.clone())).collect())
+            .map_err(|e| format!("{:?}", e))?;
+        let mut with_big = secrets.iter().map(|s| Secret { name: s.name.clone(), pat: s.pat.clone() }).collect::<Vec<_>>();
+        with_big.push(Secret { name: format!("the out-of-range witness value [{}] (8-byte little-endian)", j), pat: big.to_le_bytes().to_vec() });
+        with_big.extend(text_patterns(&format!("the out-of-range witness value [{}]", j), big));
+        let mut tr = t.transcript();
+        let mut rng = tspec.rng.make();
+        alloc::capture_start();
+        // the error value is dropped inside the window: whatever it owns is released here
+        let r = guarded(|| R::prove(&mut tr, &st_big, &w_big, &mut rng).is_ok());
+        let c = alloc::capture_stop();
+        if r? {
+            return Err(format!("prover accepted the value {} in a {}-bit statement", big, bits));
+        }
+        scan("prove refused because a value does not fit in the bit length (error value dropped)", c, &with_big, &mut stats)?;
+        alloc::capture_start();
+        drop(w_big);
+        scan("drop(RangeWitness) holding an out-of-range value", alloc::capture_stop(), &with_big, &mut stats)?;
+        drop(st_big);
+    }
     // ---- verify with recovery (and drop of the returned masks)
     for act in [VerifyAction::RecoverAndVerify, VerifyAction::RecoverOnly] {
         let mut ts = [t.transcript()];
@@ -268,6 +317,64 @@ pub fn oracle(_ctx: &RunCtx, spec: &WipeSpec, log: &mut CaseLog) -> Result<(), S
     drop(o);
     drop(o2);
     scan("drop(CommitmentOpening)", alloc::capture_stop(), &secrets, &mut stats)?;
+    // ---- the same owners when their vectors have SPARE CAPACITY that held blinding factors (drawn for a wider degree, then
+    // truncated): the buffer is released by the owner, so the whole allocation is the owner's to wipe
+    {
+        let mut g = crate::gen::chacha(spec.bulk ^ 0x5a5a_0001);
+        let stale: Vec<Scalar> = (0..2).map(|_| crate::gen::rand_scalar(&mut g)).collect();
+        let mut with_stale = secrets.iter().map(|s| Secret { name: s.name.clone(), pat: s.pat.clone() }).collect::<Vec<_>>();
+        for (i, s) in stale.iter().enumerate() {
+            with_stale.push(Secret {
+                name: format!("blinding factor {} left in the spare capacity of the owner's vector", i),
+                pat: s.as_bytes().to_vec(),
+            });
+        }
+        let roomy = |r: &Vec<Scalar>| {
+            let mut v = Vec::with_capacity(r.len() + 2);
+            v.extend_from_slice(r);
+            v.extend_from_slice(&stale);
+            v.truncate(r.len());
+            v
+        };
+        let o = CommitmentOpening::new(t.values[0], roomy(&t.blindings[0]));
+        alloc::capture_start();
+        drop(o);
+        scan("drop(CommitmentOpening) whose blinding vector has spare capacity", alloc::capture_stop(), &with_stale, &mut stats)?;
+        let w3 = RangeWitness::init(t.values.iter().zip(t.blindings.iter()).map(|(v, r)| CommitmentOpening::new(*v, roomy(r))).collect())
+            .map_err(|e| format!("{:?}", e))?;
+        let mut tr = t.transcript();
+        let mut rng = tspec.rng.make();
+        alloc::capture_start();
+        let r = guarded(|| R::prove(&mut tr, &t.st, &w3, &mut rng).is_ok());
+        drop(w3);
+        let c = alloc::capture_stop();
+        if !r? {
+            return Err("prover refused a valid witness whose blinding vectors have spare capacity".into());
+        }
+        scan("prove + drop(RangeWitness) with blinding vectors that have spare capacity", c, &with_stale, &mut stats)?;
+        // the witness's vector of openings with spare capacity that held one more opening (moved out by the caller)
+        {
+            let extra_v = spec.bulk.rotate_left(43) | (1u64 << 61);
+            let mut ops: Vec<CommitmentOpening> = Vec::with_capacity(cfg.m + 1);
+            for (v, r) in t.values.iter().zip(t.blindings.iter()) {
+                ops.push(CommitmentOpening::new(*v, r.clone()));
+            }
+            ops.push(CommitmentOpening::new(extra_v, t.blindings[0].clone()));
+            let moved_out = ops.pop();
+            let w4 = RangeWitness::init(ops).map_err(|e| format!("{:?}", e))?;
+            let mut pats = with_stale.iter().map(|s| Secret { name: s.name.clone(), pat: s.pat.clone() }).collect::<Vec<_>>();
+            pats.push(Secret { name: "a witness value left in the spare capacity of the witness's vector of openings".into(), pat: extra_v.to_le_bytes().to_vec() });
+            alloc::capture_start();
+            drop(w4);
+            let c = alloc::capture_stop();
+            drop(moved_out);
+            scan("drop(RangeWitness) whose vector of openings has spare capacity", c, &pats, &mut stats)?;
+        }
+        let mk = ExtendedMask::assign(ext_of(cfg.ext), roomy(&t.blindings[0])).map_err(|e| format!("{:?}", e))?;
+        alloc::capture_start();
+        drop(mk);
+        scan("drop(ExtendedMask) whose vector has spare capacity", alloc::capture_stop(), &with_stale, &mut stats)?;
+    }
     let mask = ExtendedMask::assign(ext_of(cfg.ext), t.blindings[0].clone()).map_err(|e| format!("{:?}", e))?;
     alloc::capture_start();
     let got = mask.blindings();
@@ -365,10 +472,10 @@ pub fn def() -> PropertyDef {
         rule: "A case is a configuration (8-64 bits, aggregation 1-16, capacity m..2m, degree 1-6) with high-entropy secrets (top-half uniform \
                values, uniform blindings, uniform seed) run on Ristretto under a tracking global allocator that copies every block passed to \
                dealloc (the old block of a moving realloc included) while armed. Operations, each with its own capture window: prove; a prove call that is refused late (promise of the last aggregate member above its value) or early (a blinding generator of the public generator set is the identity); \
-               verify_batch in RecoverAndVerify and RecoverOnly followed by drop of the returned masks; recovering verification of [valid seeded \
+               a prove call refused because a 62-bit value does not fit the bit length (error value dropped inside the window; the value is also searched as decimal / hexadecimal text); verify_batch in RecoverAndVerify and RecoverOnly followed by drop of the returned masks; recovering verification of [valid seeded \
                member, invalid member] that fails at the final check or inside the per-proof loop; drop of RangeWitness, CommitmentOpening (and \
-               clone), ExtendedMask, RangeStatement; drop_in_place of a boxed statement (also an aggregated one whose seed was set through the public field) followed by a volatile read of its bytes. Oracle: no \
-               freed block (no statement byte) contains a blinding scalar / mask component, the seed, a 64-bit value in little-endian form, or a \
+               clone), ExtendedMask, RangeStatement; the same owners when their vectors have spare capacity that held two more blinding factors (drawn, then truncated) or one more opening (moved out), incl. a prove call with such a witness; drop_in_place of a boxed statement (also an aggregated one whose seed was set through the public field) followed by a volatile read of its bytes. Oracle: no \
+               freed block (no statement byte) contains a blinding scalar / mask component, the seed, a 64-bit value in little-endian form or as decimal / hexadecimal text, or a \
                16-word run spelling the top bits of value - promise as 0/1, (bit-1) or (bit-z) scalars (z from a first, tapped run of the same \
                deterministic case). Non-trivial = a case with a seed or degree >= 2 in which freed blocks >= 32 bytes were scanned; distinct by \
                (configuration, seed?, case)."
